@@ -729,9 +729,9 @@ pub fn property() -> Property {
             "with watermarks, a pair whose earlier element already satisfied watermark - t > W when the later one arrived may or may not be emitted (lazy front eviction)".into(),
         ],
         parts: vec![
-            Part { name: "nowm", run: run_nowm, quick: Random { cases: 100_000, bytes: 96 }, thorough: Random { cases: 2_000_000, bytes: 96 }, min_nontrivial_pct: 30 },
-            Part { name: "wm", run: run_wm, quick: Random { cases: 140_000, bytes: 128 }, thorough: Random { cases: 3_000_000, bytes: 128 }, min_nontrivial_pct: 30 },
-            Part { name: "mgr", run: run_mgr, quick: Random { cases: 60_000, bytes: 128 }, thorough: Random { cases: 1_500_000, bytes: 128 }, min_nontrivial_pct: 30 },
+            Part { name: "nowm", run: run_nowm, quick: Random { cases: 500_000, bytes: 96 }, thorough: Random { cases: 5_000_000, bytes: 96 }, min_nontrivial_pct: 30 },
+            Part { name: "wm", run: run_wm, quick: Random { cases: 700_000, bytes: 128 }, thorough: Random { cases: 6_000_000, bytes: 128 }, min_nontrivial_pct: 30 },
+            Part { name: "mgr", run: run_mgr, quick: Random { cases: 300_000, bytes: 128 }, thorough: Random { cases: 3_000_000, bytes: 128 }, min_nontrivial_pct: 30 },
             // exhaustive parts: param = a*100 + n_left*10 + n_right (a = watermark slot alphabet, 0 = no watermark call)
             Part { name: "exh-nowm-12", run: run_nowm, quick: Exhaustive { param: 12 }, thorough: Exhaustive { param: 12 }, min_nontrivial_pct: 0 },
             Part { name: "exh-nowm-21", run: run_nowm, quick: Exhaustive { param: 21 }, thorough: Exhaustive { param: 21 }, min_nontrivial_pct: 0 },
